@@ -2,6 +2,7 @@ package main
 
 import (
 	"encoding/hex"
+	"encoding/json"
 	"fmt"
 	"math/rand"
 	"sort"
@@ -352,5 +353,29 @@ func init() {
 			},
 		}
 		RunSpec(c, spec, c.Scale(600, 6000))
+		if c.ReplayIn != "" {
+			return
+		}
+		// K3 probe (recorded finding): two Docker label keys of one container with the same sanitised name —
+		// the value that survives follows map iteration order, so the same query gives different stream labels
+		k3 := c18Case{Ctrs: []c18Ctr{{Name: "k3", Labels: [][2]string{{"a.b", "dot"}, {"a-b", "dash"}}, Recs: []LRec{{TS: mT0 * 1e9, Body: "x"}}}},
+			Start: (mT0 - 5) * 1e9, End: (mT0 + 5) * 1e9, Reps: 1}
+		seen := map[string]int{}
+		for i := 0; i < 60; i++ {
+			q, _ := dockerlog.NewQuerier(k3.fake(nil))
+			data, err := evalQuery(q, `{container="k3"}`, k3.Start, k3.End, 0, -1)
+			if err != nil {
+				seen["err:"+errClassOf(err)]++
+				continue
+			}
+			seen[streamsSexp(data, false).String()]++
+		}
+		c.Count(fmt.Sprintf("k3:distinct-answers=%d of 60 runs", len(seen)))
+		if len(seen) != 1 {
+			cj, _ := json.Marshal(k3)
+			c.Fail(Failure{Kind: "failing-input", Signature: "K3", What: "determinism at a sanitisation collision", Case: cj,
+				Request: `{container="k3"} over one container with Docker labels {"a.b":"dot","a-b":"dash"}, 60 runs`,
+				Impl: fmt.Sprintf("%d distinct answers", len(seen)), Model: "Docker.getLabels keeps the later key (C20_collision_witness); the runtime's map order decides which is later"})
+		}
 	}
 }
